@@ -209,6 +209,13 @@ def many_messages(rnd: random.Random) -> t.List[t.Any]:
         out.append(M.SearchResultReference(6, [], [f"ldap://h{j}/dc=x" for j in range(n)]))
         out.append(M.SearchResultDone(7, [], M.LDAPResult(M.LDAPResultCode(10), "", "", [f"ldap://h{j}/" for j in range(n)])))
         out.append(M.ExtendedResponse(8, ctl, ok, "1.2.3", bytes(n)))
+    # byte-identical members of a SET OF / SEQUENCE OF are members all the same (attribute values, and / or items, URIs)
+    dup = s.FilterEquality("objectClass", b"person")
+    out.append(M.SearchRequest(9, [], "dc=x", M.SearchScope.SUBTREE, M.DereferencingPolicy.NEVER, 0, 0, False, s.FilterAnd([dup, dup]), ["cn", "cn"]))
+    out.append(M.SearchRequest(10, [], "dc=x", M.SearchScope.SUBTREE, M.DereferencingPolicy.NEVER, 0, 0, False,
+                               s.FilterOr([s.FilterEquality("cn", b"a"), s.FilterPresent("sn"), s.FilterEquality("cn", b"a"), s.FilterAnd([dup, s.FilterNot(dup), dup])]), []))
+    out.append(M.SearchResultEntry(11, [], "cn=x", [M.PartialAttribute("member", [b"v", b"v", b"w", b"v"]), M.PartialAttribute("member", [b"v"]), M.PartialAttribute("empty", [])]))
+    out.append(M.SearchResultReference(12, [], ["ldap://a/", "ldap://a/"]))
     rnd.shuffle(out)
     return out
 
